@@ -12,7 +12,7 @@ import os
 from vlib import common
 
 PLUGINS = ["sort", "keys", "min", "max"]
-OPS = {"sort", "keys", "min", "max", "min2", "max2"}
+OPS = {"sort", "keys", "min", "max", "min2", "max2", "sortcmp", "mincmp", "maxcmp", "min2cmp", "max2cmp"}
 GEN = "genlists"
 
 ASSUMPTIONS = [
